@@ -179,6 +179,7 @@ def opsOf (ds : DS) (ws : List String) (at_ : Nat) : Option (List Op) :=
   | "O" :: "clear" :: d :: _ => (dOf d).map fun d => [.clear d]
   | "O" :: "clearboth" :: _ => some [.clearBoth]
   | "O" :: "write" :: k :: _ => (kOf k).map fun k => [.write k]
+  | "O" :: "writev" :: k :: _ => (kOf k).map fun k => [.write k]   -- Conn.Writev: the same step (queue + write deadline)
   | "O" :: "flush" :: k :: _ => (kOf k).map fun k => [.flush k]
   | "O" :: "close" :: _ => some [.close]
   | "O" :: "wait" :: _ => some []
